@@ -34,7 +34,6 @@ import (
 
 	"github.com/basekick-labs/arc/internal/compaction"
 	"github.com/basekick-labs/arc/internal/storage"
-	"github.com/basekick-labs/arc/internal/verifhook"
 	"github.com/basekick-labs/arc/internal/zzverif/vlib"
 )
 
@@ -56,6 +55,9 @@ func (s scenario) label() string {
 	case "clean":
 		return "compaction cycle without any fault"
 	case "freeze":
+		if s.N < 0 {
+			return "complete in-process job without a crash"
+		}
 		if s.RecFail {
 			return "crash at " + s.Phase + ", then a recovery pass whose input deletes fail"
 		}
@@ -85,6 +87,7 @@ type caseResult struct {
 	findings []finding
 	when     string
 	early    []any
+	earlyNK  []any // removed-early events that are the narrower-key root cause
 	timeline []any
 	events   []mutEvent
 	killLog  []string
@@ -370,7 +373,7 @@ func runCase(pr *prepared, sc scenario, db *sql.DB) *caseResult {
 		return res
 	}
 	_ = os.MkdirAll(tmp, 0o700)
-	mon := &delMonitor{root: root, p: p, raw: pr.raw, keyCols: pr.keyCols, collapse: pr.collapse}
+	mon := &delMonitor{root: root, p: p, raw: pr.raw, keyCols: pr.keyCols, collapse: pr.collapse, narrow: pr.narrow}
 	snapNote := func(step string) {
 		res.timeline = append(res.timeline, map[string]any{"after": step, "files": storageListing(root)})
 	}
@@ -474,7 +477,7 @@ func runCase(pr *prepared, sc scenario, db *sql.DB) *caseResult {
 		res.counters["job_child_processes"] += int64(strings.Count(string(cb), "\n"))
 	}
 	mon.mu.Lock()
-	res.early = mon.early
+	res.early, res.earlyNK = mon.early, mon.earlyNarrow
 	res.counters["delete_events_checked"] += int64(mon.checked)
 	res.counters["rows_checked_at_deletes"] += int64(mon.rowsSeen)
 	mon.mu.Unlock()
@@ -515,10 +518,18 @@ func scenarios(pr *prepared, full []mutEvent, thorough bool) []scenario {
 		for _, nth := range nths {
 			out = append(out, scenario{Kind: "kill", Phase: kp.phase, Kill: &killSpec{Point: kp.point, Nth: nth, Job: 1}})
 		}
-		if (int(sa%uint64(len(killPhases))) == i && (len(pr.spec.Files) <= 16)) || thorough {
+		nk := uint64(len(killPhases))
+		sel := func(shift uint) bool {
+			return int((sa>>shift)%nk) == i || (thorough && int((sa>>(shift+16))%nk) == i)
+		}
+		maxPersist := 16 // every retry level of a persistent killer costs child processes
+		if thorough {
+			maxPersist = 24
+		}
+		if sel(0) && len(pr.spec.Files) <= maxPersist {
 			out = append(out, scenario{Kind: "kill", Phase: kp.phase, Kill: &killSpec{Point: kp.point, Nth: 1, Job: 1, Persistent: true}})
 		}
-		if len(pr.spec.Files) > pr.spec.MaxBatch && (int((sa>>8)%uint64(len(killPhases))) == i || thorough) {
+		if len(pr.spec.Files) > pr.spec.MaxBatch && sel(8) {
 			out = append(out, scenario{Kind: "kill", Phase: kp.phase, Kill: &killSpec{Point: kp.point, Nth: 1, Job: 2}})
 		}
 	}
@@ -531,8 +542,6 @@ func checkC09(c *vlib.Ctx) {
 	c.Assume("a crash is modelled as: storage mutations are atomic per Backend call (plus the two explicit partial-upload variants), the applied ones form a prefix, local scratch files of the dead process are gone")
 	c.Assume("dedup key = union of the arc:tags of the partition's files + time; tag schema evolution only adds tags")
 
-	lg := zerolog.Nop()
-	_ = lg
 	thorough := !c.Quick()
 	workers := runtime.NumCPU()
 	if workers > 16 {
@@ -570,7 +579,7 @@ func checkC09(c *vlib.Ctx) {
 		return
 	}
 
-	nPart := c.N(20, 300)
+	nPart := c.N(20, 160)
 	seeds := c.Rand("partitions")
 	specs := make([]*partSpec, nPart)
 	for i := range specs {
@@ -586,7 +595,7 @@ func checkC09(c *vlib.Ctx) {
 		if pr.broken != "" {
 			return
 		}
-		res := runCase(pr, scenario{Kind: "freeze", N: -1, Phase: "nothing (complete in-process job)"}, db)
+		res := runCase(pr, scenario{Kind: "freeze", N: -1, Phase: "none (complete in-process job)"}, db)
 		fullRes[i] = res
 		pr.scen = scenarios(pr, res.events, thorough)
 	})
@@ -690,13 +699,13 @@ func checkC09(c *vlib.Ctx) {
 	for i := 0; i < len(all) && i < 400; i += 50 {
 		if r := all[i]; r != nil {
 			c.Sample(map[string]any{"partition": r.p.spec.Idx, "tier": r.p.spec.Tier, "files": len(r.p.spec.Files), "rows": r.p.spec.Rows, "meta": r.p.spec.MetaMode,
-				"fault": r.sc.label(), "fired": r.fired, "verdict": len(r.findings) == 0 && len(r.early) == 0})
+				"fault": r.sc.label(), "fired": r.fired, "held": len(r.findings) == 0 && len(r.early) == 0 && len(r.earlyNK) == 0})
 		}
 	}
 	if c.Quick() {
 		c.Floor(150)
 	} else {
-		c.Floor(3000)
+		c.Floor(2000)
 	}
 }
 
@@ -718,6 +727,11 @@ func report(c *vlib.Ctx, res *caseResult, thorough bool) {
 	}
 	if len(res.early) > 0 {
 		c.Violation("input removed before its rows are in a complete output file: "+res.sc.label(), mk(nil))
+	}
+	if len(res.earlyNK) > 0 {
+		d := mk(nil)
+		d.Early = res.earlyNK
+		c.Violation(narrowKeyEffect, d)
 	}
 }
 
@@ -759,5 +773,3 @@ func parallel(workers, n int, fn func(i int, db *sql.DB)) {
 	close(ch)
 	wg.Wait()
 }
-
-var _ = verifhook.Enabled
